@@ -466,7 +466,8 @@ inline Decoded ref_decode(const Schema& s, const uint8_t* p, size_t n, const Dec
 }
 inline Decoded ref_decode(const Schema& s, const Bytes& b, const DecodeOpts& o = DecodeOpts()) { return ref_decode(s, b.data(), b.size(), o); }
 
-// Canonical form for comparisons: unordered maps are sorted by the reference encoding of the key.
+// Canonical form for comparisons: all maps are sorted by the reference encoding of the key (both
+// sides of a comparison are canonicalised, so container iteration order never matters).
 inline void canon(const Schema& s, Value& v) {
   switch (s.k) {
     case K::Seq: for (auto& e : v.kids) canon(*s.kids[0], e); break;
